@@ -288,7 +288,7 @@ K("O03.1", ["C03"], "gc", "c03_constructors_register", level="bounded", bound="o
 # C17 retained sessions
 # ---------------------------------------------------------------------------------------------
 V("O17.1", ["C17"], "c17_session", expect_verified=2, functions=["Compiler::compile_program", "Compiler::compile_ast"],
-  desc="after compile_ast the compiler's code buffer is empty on Ok AND on Err; on Err no remembered last instruction, no open loop context, symbol table reset to the global scope; on Ok the code handed out ends with Halt and carries all constants")
+  desc="after compile_ast the compiler's code buffer is empty on Ok AND on Err; on Err no remembered last instruction, no open loop context, and the global scope holds EXACTLY the names it held before the call, in the same slots (none of the failed program's declarations survives; every generator arm keeps the earlier names on all exits: sym_globals_kept); on Ok the code handed out ends with Halt and carries all constants; either way the session is back at the outermost global scope")
 V("O17.2", ["C17", "C03"], "c17_vm", expect_verified=2, functions=["VM::run", "VM::run_code (prologue)"],
   desc="VM::run puts the same collector back on every exit path (heap values held by globals stay managed); every run starts from an empty operand stack, one call frame, ip = bp = 0, the new code; globals kept")
 
@@ -333,8 +333,8 @@ NOT_APPLICABLE = {
 PROPERTIES = {
     "C17": {
         "level": "proof",
-        "claim": "PARTIAL: the state-reset contracts of a retained compiler / machine, proved (Verus) on the verbatim bodies of compile_ast, compile_program, VM::run and the prologue of run_code: a failed compile leaves no code, loop or function context behind; a successful one leaves an empty code buffer; every run starts from an empty stack and a single frame; the collector (hence every heap value a global refers to) survives the run on success and on every error path. NOT decided: that a session equals the concatenated program (relational, needs C01), globals' values across lines, effects of a run-time failure on globals.",
-        "note": "Trusted: Verus/Z3, rules R1,R4,R4s,R4m,R8,R11 (mem::take / mem::replace helpers with the std-documented contract). Three defects of retained sessions were repaired (known-findings.txt).",
+        "claim": "PARTIAL: the state-reset contracts of a retained compiler / machine, proved (Verus) on the verbatim bodies of compile_ast, compile_program, VM::run and the prologue of run_code: a failed compile leaves no code, loop or function context behind AND none of its declarations: the global scope holds exactly the names it held before, in the same slots (so a failed line cannot shadow an earlier global); a successful one leaves an empty code buffer and the session back at the outermost global scope; every run starts from an empty stack and a single frame; the collector (hence every heap value a global refers to) survives the run on success and on every error path. NOT decided: that a session equals the concatenated program (relational, needs C01), globals' values across lines, effects of a run-time failure on globals.",
+        "note": "Trusted: Verus/Z3, rules R1,R4,R4s,R4m,R8,R11 (mem::take / mem::replace helpers with the std-documented contract). Four defects of retained sessions were repaired (known-findings.txt).",
         "design_ref": "DESIGN.md 3.14",
         "undecided": ["session == concatenated program (relational)", "SymbolTable::reset_to_global internals (Context is opaque)", "function values across lines (ip refers to a previous code buffer: documented upstream limitation, test_retained_functions is #[ignore]d)"],
         "assumptions": ["compile_statement / run_code are opaque here"],
